@@ -265,11 +265,19 @@ def rule_stats_args(F, ev, R, config, rule="R-STATS-ARGS"):
     pr = problem_roles(F)
     cuse = resolve_cache_roles_by_use(F, ev)
     want = {a["model"][2]: ("model", pr["model"]), yc[0][2]: ("data", pr["data"]), a["weights"][2]: ("weights", pr["weights"]), yc[1][2]: ("coefficients", None)}
-    VIEWS = ("as_view", "column", "columns", "clone", "clone_owned", "into_owned", "as_ref", "deref", "borrow", "view", "generic_view", "rows_generic", "columns_generic")
+    # whole-value views and copies; `column(0)` is the whole coefficient matrix of a single-right-hand-side problem (the only
+    # kind statistics are offered for, witness W-…): any other sub-view (a row range, another column) is NOT the value
+    VIEWS = ("as_view", "clone", "clone_owned", "into_owned", "as_ref", "deref", "borrow")
 
     def strip(t):
-        while t[0] == "call" and t[1].rsplit("::", 1)[-1] in VIEWS and t[3]:
-            t = t[3][0]
+        while t[0] == "call" and t[3]:
+            n_ = t[1].rsplit("::", 1)[-1]
+            if n_ in VIEWS:
+                t = t[3][0]
+            elif n_ == "column" and len(t[3]) == 2 and t[3][1] == ("const", "usize", 0):
+                t = t[3][0]
+            else:
+                break
         return t
     # call sites in the terms of the function that owns them (the call may sit in a closure: `coeffs.and_then(|c| Stats::new(…, c))`)
     from effects import iteration_effects
